@@ -114,6 +114,8 @@ class Prop(PropBase):
             "amaranth pysim"]
     stubs = ["cycle driver (stimulus)", "integer counter reference model"]
     search_space = "maximum counts and acquire/release/clear call histories with boundary and flush faults"
+    assumptions = ["'count below maximum' / 'count above zero' are judged on the count at the beginning of the cycle; of the calls "
+                   "executed in one cycle `clear` is applied last"]
 
     def gen_config(self, rng, tier, idx):
         big = tier == "thorough"
